@@ -19,7 +19,7 @@ CHECKS = {
         ref="DESIGN.md §3 C02",
     ),
     "C03": dict(
-        technique="static analysis: post-dominance of the Hermitian symmetrisation in the clang AST of the D(q) producers (statement-list position relative to the OpenMP/serial twin and the single return), algebra of make_Hermitian's loop body by source-to-sympy translation, symbolic loop-bound extraction (every pair j >= i, diagonal included), open-term rules for the Python reference and the masses setter; orientation typing of the reciprocal point-group operations; coverage of the derivative kernel's symmetrisation nest; def-use rule that float change-of-basis matrices are rounded before integer conversion; flow-sensitive provenance of the masses each cell receives in the masses setter; after its own rules, the other properties' rules on the files this property is anchored in (anchor-scoped delegation, instances cached per tree digest); path enumeration of the compiled Wang driver (through delegation from C08); frame typing of the reciprocal lattice handed to the compiled kernels",
+        technique="static analysis: post-dominance of the Hermitian symmetrisation in the clang AST of the D(q) producers (statement-list position relative to the OpenMP/serial twin and the single return), algebra of make_Hermitian's loop body by source-to-sympy translation, symbolic loop-bound extraction (every pair j >= i, diagonal included), open-term rules for the Python reference and the masses setter; orientation typing of the reciprocal point-group operations; coverage of the derivative kernel's symmetrisation nest; def-use rule that float change-of-basis matrices are rounded before integer conversion; flow-sensitive provenance of the masses each cell receives in the masses setter; after its own rules, the other properties' rules on the files this property is anchored in (anchor-scoped delegation, instances cached per tree digest); path enumeration of the compiled Wang driver (through delegation from C08); frame typing of the reciprocal lattice handed to the compiled kernels; frame typing of the Brillouin-zone change of basis",
         level="other",
         text="Decides only the Hermiticity and mass-propagation clauses: because the property quantifies over arbitrary force constants, 'every producer path ends in (M + M^H)/2' is a necessary condition visible in code shape, and make_Hermitian's body is shown algebraically to compute a'=(a+conj b)/2, b'=conj a' over all pairs j>=i. D(-q)=conj D(q), G-periodicity, point-group invariance, the acoustic sum rule and the s/t scaling are statements about values and are not decided.",
         note="Trusted: clang-14 JSON AST, sympy. The dipole-dipole term added after the symmetrisation on the Gonze-Lee path is Hermitian analytically, not by a code step; not judged.",
@@ -40,7 +40,7 @@ CHECKS = {
         ref="DESIGN.md §3 C06",
     ),
     "C08": dict(
-        technique="static analysis: element-wise symbolic execution of the NAC kernels' loop nests over the clang-14 JSON AST (literal-bound loops unrolled, size-bound loops run once for a generic index, array cells as patterns, callees inlined) giving closed sympy forms of a generic array element; homogeneity tests by substitution (direction -> s direction, Born -> s Born); who-writes and subscript-dependence rules; open-term comparison of the Python fallback with the same closed form; after its own rules, the other properties' rules on the files this property is anchored in (anchor-scoped delegation, instances cached per tree digest); path enumeration of the Wang driver over the clang AST (conditions split into atoms, conditional operators split, pointer locals followed): which vector the term is built from in each class of |q| and direction; provenance of the radius in the default damping parameter",
+        technique="static analysis: element-wise symbolic execution of the NAC kernels' loop nests over the clang-14 JSON AST (literal-bound loops unrolled, size-bound loops run once for a generic index, array cells as patterns, callees inlined) giving closed sympy forms of a generic array element; homogeneity tests by substitution (direction -> s direction, Born -> s Born); who-writes and subscript-dependence rules; open-term comparison of the Python fallback with the same closed form; after its own rules, the other properties' rules on the files this property is anchored in (anchor-scoped delegation, instances cached per tree digest); path enumeration of the Wang driver over the clang AST (conditions split into atoms, conditional operators split, pointer locals followed): which vector the term is built from in each class of |q| and direction; provenance of the radius in the default damping parameter; closed form of the Gonze-Lee q = 0 on-site term by element-wise symbolic execution",
         level="other",
         text="Decides the zone-centre clauses for both methods: the term added along a direction n is nac_factor (n.Z_j)_a (n.Z_j')_b / (n.eps.n) (Wang: kernel and Python fallback, per image 1/N; Gonze-Lee: the G+q=0 term n_a n_b/(n.eps.n) dressed by multiply_borns), it is homogeneous of degree 0 in n -- hence independent of the length of n --, every correction term is bilinear in the Born charges -- hence zero charges switch it off --, the Wang addend is the same for all supercell images of a primitive atom, which is what makes it cancel at non-zero commensurate q, and the Gonze-Lee short-range force constants are built from dynamical matrices, dipole terms and an inverse transform that all use the same representatives of the commensurate points. Does not decide the cancellation of the Gonze-Lee reciprocal sum at commensurate points (a lattice-sum identity realised by a run-time G list), its stated precision, or the mass weighting / eigenvalues.",
         note="Trusted: clang-14 JSON AST, sympy. Assumption printed in the evidence: dd_q0 comes from the same Born dressing. The zone-centre switch tolerance is compared across languages under C13 (R13e).",
@@ -68,7 +68,7 @@ CHECKS = {
         ref="DESIGN.md §3 C11",
     ),
     "C12": dict(
-        technique="static analysis: source-to-sympy derivative identity for the chain-rule coefficient, open-term comparison of the finite-difference and Grueneisen formulas with the documented ones, element-wise symbolic execution of the compiled derivative kernel compared with the sympy derivative of the forward kernel's closed form (FC part with image selection, NAC part), whole-class attribute resolution for objects constructed from repository classes, path enumeration of the q-point loops for band-order consistency of all per-band results; frame typing of the finite-difference displacement; open-term comparison of the group-velocity assembly sites; role-separation rule for the degeneracy tolerance; after its own rules, the other properties' rules on the files this property is anchored in (anchor-scoped delegation, instances cached per tree digest); symmetry-source rule for the Grueneisen mesh; frame typing of the little-group selection (products of reciprocal operations with q, stacks included) and entry-wise symbolic evaluation of the averaged term; observer purity of the Grueneisen plot / write methods (view-alias effect analysis, built-in example)",
+        technique="static analysis: source-to-sympy derivative identity for the chain-rule coefficient, open-term comparison of the finite-difference and Grueneisen formulas with the documented ones, element-wise symbolic execution of the compiled derivative kernel compared with the sympy derivative of the forward kernel's closed form (FC part with image selection, NAC part), whole-class attribute resolution for objects constructed from repository classes, path enumeration of the q-point loops for band-order consistency of all per-band results; frame typing of the finite-difference displacement; open-term comparison of the group-velocity assembly sites; role-separation rule for the degeneracy tolerance; after its own rules, the other properties' rules on the files this property is anchored in (anchor-scoped delegation, instances cached per tree digest); symmetry-source rule for the Grueneisen mesh; frame typing of the little-group selection (products of reciprocal operations with q, stacks included) and entry-wise symbolic evaluation of the averaged term; observer purity of the Grueneisen plot / write methods (view-alias effect analysis, built-in example); view-update rule on the derivative / Grueneisen modules",
         level="other",
         text="Decides the coefficient clauses: the factor applied to <e|dD|e> is d(factor sqrt l)/dl, the numerical derivative is the symmetric difference over 2|dq|, gamma = -<e|dD|e>/(dV/V)/(2 l) with dD = D(V+) - D(V-) and the strain from the three supplied cells; that every documented access path (attribute/method on a locally constructed repository object) exists, and that eigenvalues, eigenvectors, <e|dD|e> and group velocities of one q-point are reordered by the same band connection. Does not decide that dD equals the derivative of D (loop nests), degeneracy handling or mesh agreement.",
         note="Trusted: CPython ast, sympy. Two known findings: phonopy-gruneisen calls two methods PhonopyGruneisen no longer has.",
@@ -82,35 +82,35 @@ CHECKS = {
         ref="DESIGN.md §3 C13",
     ),
     "C14": dict(
-        technique="static analysis on Python ast: guard-correlated alias/retention/overwrite analysis, path-sensitive definite-assignment (worlds of option-guard facts with class flag implications), open-term normal form of every eigenvalue->frequency conversion site, sibling-call keyword agreement across if-arms, who-reads rule for file writers; value-taint rule for the yaml / hdf5 writers of eigenvectors (copy only: indexing, transposition, reshape, real / imaginary part); after its own rules, the other properties' rules on the files this property is anchored in (anchor-scoped delegation, instances cached per tree digest); zone-centre window rule; same-name forwarding rule; sibling-class keyword rule; the batch solver behind the q-point drivers is an extra anchor for delegation (memory-order rules of the kernel arguments); fresh-write rule: results handed out by reference are not overwritten in place by the next call (built-in positive example); permutation-direction agreement of the band connection; observer purity (view-alias effect analysis of plot / write / get methods)",
+        technique="static analysis on Python ast: guard-correlated alias/retention/overwrite analysis, path-sensitive definite-assignment (worlds of option-guard facts with class flag implications), open-term normal form of every eigenvalue->frequency conversion site, sibling-call keyword agreement across if-arms, who-reads rule for file writers; value-taint rule for the yaml / hdf5 writers of eigenvectors (copy only: indexing, transposition, reshape, real / imaginary part); after its own rules, the other properties' rules on the files this property is anchored in (anchor-scoped delegation, instances cached per tree digest); zone-centre window rule; same-name forwarding rule; sibling-class keyword rule; the batch solver behind the q-point drivers is an extra anchor for delegation (memory-order rules of the kernel arguments); fresh-write rule: results handed out by reference are not overwritten in place by the next call (built-in positive example); permutation-direction agreement of the band connection; observer purity (view-alias effect analysis of plot / write / get methods); out= aliasing rule across calls (built-in examples)",
         level="other",
         text="Decides, for every combination of the boolean output options (a product space no test enumerates), that no retained result view is overwritten through an alias, that no result variable is unbound on an option path, that all 11 access paths convert eigenvalues to frequencies by the same expression, that stored and iterated meshes (and every other if-selected sibling construction) are configured with the same keyword values, and that writers read only what the API returns. Does not decide that LAPACK eigenvectors diagonalise the matrix or band-connection permutations.",
         note="Trusted: CPython ast, sympy as normaliser. Assumes for-loops run at least once, == dispatch chains are exhaustive, and 'if b: self._a = True' in __init__ is an invariant.",
         ref="DESIGN.md §3 C14",
     ),
     "C15": dict(
-        technique="static analysis on Python ast: interprocedural effect summaries (which repo functions mutate which argument in place), two-state typestate (written / rebuilt) over guard-correlated worlds for every public method and property setter of Phonopy, who-captures-the-dynamical-matrix analysis, copy-at-the-boundary rules for PhonopyAtoms, constructor-parameter exhaustiveness of copy(); after its own rules, the other properties' rules on the files this property is anchored in (anchor-scoped delegation, instances cached per tree digest); may-alias analysis of conditional copies changed in place; the shared group-velocity and derivative objects are extra anchors for delegation (sticky per-call state); fresh-write rule for the shared dynamical-matrix / group-velocity objects; who-may-write rule for the constructor configuration of the Phonopy object",
+        technique="static analysis on Python ast: interprocedural effect summaries (which repo functions mutate which argument in place), two-state typestate (written / rebuilt) over guard-correlated worlds for every public method and property setter of Phonopy, who-captures-the-dynamical-matrix analysis, copy-at-the-boundary rules for PhonopyAtoms, constructor-parameter exhaustiveness of copy(); after its own rules, the other properties' rules on the files this property is anchored in (anchor-scoped delegation, instances cached per tree digest); may-alias analysis of conditional copies changed in place; the shared group-velocity and derivative objects are extra anchors for delegation (sticky per-call state); fresh-write rule for the shared dynamical-matrix / group-velocity objects; who-may-write rule for the constructor configuration of the Phonopy object; view-update rule (a local bound to a view of stored data is not augmented in place)",
         level="other",
         text="Decides the clause that makes history independence possible at all: on every normal exit of every public state-changing operation (found through effect summaries, not a name list) the dynamical matrix and the persistent group-velocity helper are rebuilt from all four state fields, dataset writers drop the cached displaced supercells, builders do not feed a state field back into itself, cell objects hand out and store copies, and copy() forwards every constructor parameter. Histories are unbounded; the rule is per operation and therefore covers every sequence. Does not decide numerical equality with a fresh object.",
         note="Trusted: CPython ast; the accepted skip guards (no masses / no force constants yet) and the net-identity exception (show_drift_force_constants) are listed in the rule source. The documented zero-copy contract of Phonopy.force_constants is not judged. One known finding (deprecated frequency_scale_factor).",
         ref="DESIGN.md §3 C15",
     ),
     "C16": dict(
-        technique="static analysis on Python ast: extraction of the yaml keys the dumpers can emit (string/f-string templates, holes resolved through call-site literals) and of the keys the loaders read (taint from self._yaml), set agreement for the fields the property names, legacy-key table; format-string tokenisation of the whitespace-parsed text writers; who-passes-what rule for save() and monotonicity of the settings save() adjusts; site typing of the BORN symmetry expansion; default-fill discipline of the loading helpers (guarded writes into loaded dictionaries, merge order); flow-sensitive provenance of the masses each cell receives before save(); after its own rules, the other properties' rules on the files this property is anchored in (anchor-scoped delegation, instances cached per tree digest); class-level mutable default rule; resolved-argument rule of load(); same-name forwarding; finite-domain evaluation of the dumper's dataset section over its two settings; truncating-mode rule for file writers; vocabulary agreement of the NAC method between dumper, loader and dispatch",
+        technique="static analysis on Python ast: extraction of the yaml keys the dumpers can emit (string/f-string templates, holes resolved through call-site literals) and of the keys the loaders read (taint from self._yaml), set agreement for the fields the property names, legacy-key table; format-string tokenisation of the whitespace-parsed text writers; who-passes-what rule for save() and monotonicity of the settings save() adjusts; site typing of the BORN symmetry expansion; default-fill discipline of the loading helpers (guarded writes into loaded dictionaries, merge order); flow-sensitive provenance of the masses each cell receives before save(); after its own rules, the other properties' rules on the files this property is anchored in (anchor-scoped delegation, instances cached per tree digest); class-level mutable default rule; resolved-argument rule of load(); same-name forwarding; finite-domain evaluation of the dumper's dataset section over its two settings; truncating-mode rule for file writers; vocabulary agreement of the NAC method between dumper, loader and dispatch; index-domain typing of the BORN writer's unit-cell indices",
         level="other",
         text="Decides the necessary conditions of write->read identity that are properties of the pair of functions: both sides use the same key names for every field the property lists, every other key the loader reads is emitted or a documented legacy key, save() hands all ten pieces of state to the dumper and never switches off an item the caller asked for, numeric columns of FORCE_SETS/FORCE_CONSTANTS/BORN cannot fuse whatever the magnitude, and the 6-column split matches the writer. Does not decide numerical equality after a round trip or hdf5 contents. Also decides that the BORN expansion applies the operation in the direction representative -> atom and that a value read from a file is never replaced by a calculator default on loading.",
         note="Trusted: CPython ast; legacy keys are a frozen table with one reason each; the latent prefix mismatch of the v2.23 legacy parser is reported as a note, not a finding.",
         ref="DESIGN.md §3 C16",
     ),
     "C17": dict(
-        technique="static analysis on Python ast: dispatch-table extraction and exhaustiveness over the calculator registry with callee existence/arity resolution, constant folding of units.py against a dimensional model of each unit string (factor, NAC factor, lengths, forces, conversion table), atom-order domain typing (original / sorted-by-species / permutation / grouped counts) in the structure writers, reader-tuple vs consumer shape agreement, refusal-path rule for create_FORCE_SETS, index-domain typing (file-row order vs atom-id order) of the id-keyed LAMMPS force loader; order-domain typing of the species grouping primitive; lookup-index typing (an index found by searching Y subscripts only lists in Y's order) in the interface modules; broadcast-alignment rule in the structure writers; after its own rules, the other properties' rules on the files this property is anchored in (anchor-scoped delegation, instances cached per tree digest); Gram-matrix identities of the cell-from-parameters routine; provenance typing of the SIESTA species tables; symbolic evaluation of the lattice assembly of readers with per-vector scale factors (backward slice of cell=); lookup-list identity for writers with a species header and per-atom indices; class-level mutable defaults of the interface classes (shallow copies with nested mutable values)",
+        technique="static analysis on Python ast: dispatch-table extraction and exhaustiveness over the calculator registry with callee existence/arity resolution, constant folding of units.py against a dimensional model of each unit string (factor, NAC factor, lengths, forces, conversion table), atom-order domain typing (original / sorted-by-species / permutation / grouped counts) in the structure writers, reader-tuple vs consumer shape agreement, refusal-path rule for create_FORCE_SETS, index-domain typing (file-row order vs atom-id order) of the id-keyed LAMMPS force loader; order-domain typing of the species grouping primitive; lookup-index typing (an index found by searching Y subscripts only lists in Y's order) in the interface modules; broadcast-alignment rule in the structure writers; after its own rules, the other properties' rules on the files this property is anchored in (anchor-scoped delegation, instances cached per tree digest); Gram-matrix identities of the cell-from-parameters routine; provenance typing of the SIESTA species tables; symbolic evaluation of the lattice assembly of readers with per-vector scale factors (backward slice of cell=); lookup-list identity for writers with a species header and per-atom indices; class-level mutable defaults of the interface classes (shallow copies with nested mutable values); definedness rule for early exits of streaming readers",
         level="other",
         text="Decides exhaustively over the 16 calculators: a handler exists with a compatible signature in all 7 dispatch functions; every unit number equals what its own unit strings imply (to 1e-9) so that one crystal gives the same THz in every unit system; no writer pairs a per-atom sequence in original order with one sorted by species (the defect only shows for interleaved input, which no sample file has); consumers index the reader's info tuple within its length; position mismatches refuse; force rows keyed by atom id are scattered to that id, never gathered through the ids, and incomplete id sets are refused. Does not decide textual round trips of particular files or lattice orientation conventions. Also decides, for the WIEN2k reader, that forces stored in case.scf order are addressed through an index looked up in a list of the same order.",
         note="Trusted: CPython ast; the per-atom meaning of two writer parameters (speci, conv_numbers) is a frozen table with reasons. Relative tolerance 1e-9 against constants folded from units.py itself.",
         ref="DESIGN.md §3 C17",
     ),
     "C18": dict(
-        technique="static analysis on Python ast: extraction of the seven tables of the settings pipeline (argparse dests, read_options forwarding with guard kind and value encoding, parse_conf handlers, set_parameter names, set_settings consumers, Settings keys/setters, settings reads in the scripts) and set-algebra / agreement rules between adjacent tables, including evaluation of every parser default against the guard under which the dest is forwarded; silent-default evaluation of all add_argument calls; sibling-construction rule for the command defaults handed to the configuration parser; after its own rules, the other properties' rules on the files this property is anchored in (anchor-scoped delegation, instances cached per tree digest); path evaluation of the primitive-matrix precedence; same-name forwarding; in-place self-aliasing rule (an element taken without a copy is not the operand of an in-place update that runs over it; built-in positive example); resolved-calculator rule for calculator-dependent defaults; value-provenance rule of the configuration-file reader (no case folding of values)",
+        technique="static analysis on Python ast: extraction of the seven tables of the settings pipeline (argparse dests, read_options forwarding with guard kind and value encoding, parse_conf handlers, set_parameter names, set_settings consumers, Settings keys/setters, settings reads in the scripts) and set-algebra / agreement rules between adjacent tables, including evaluation of every parser default against the guard under which the dest is forwarded; silent-default evaluation of all add_argument calls; sibling-construction rule for the command defaults handed to the configuration parser; after its own rules, the other properties' rules on the files this property is anchored in (anchor-scoped delegation, instances cached per tree digest); path evaluation of the primitive-matrix precedence; same-name forwarding; in-place self-aliasing rule (an element taken without a copy is not the operand of an in-place update that runs over it; built-in positive example); resolved-calculator rule for calculator-dependent defaults; value-provenance rule of the configuration-file reader (no case folding of values); key agreement for dictionary-valued settings",
         level="other",
         text="Decides, exhaustively over all ~107 options and ~111 tags, the clause 'a setting has the same effect as tag or as option' as far as it is a property of the tables: every option reaches a handler, every parameter reaches an existing setter, every settings read in the scripts exists, the encoding stored for a key is the one its handler parses (including the polarity of negative flags), numeric options are forwarded under 'is not None' so that 0 means 0 on both routes, and an option that was not typed forwards nothing, so a configuration-file tag is not overridden by a parser default. Does not decide that output files equal library results. Also decides that the command defaults (phonopy-load: NAC on, symmetrised force constants) are in force whether or not a configuration file is read.",
         note="Trusted: CPython ast. Options handled directly by the scripts and namespace-only probes are frozen lists with one reason each. Documentation tags are reported as notes only.",
